@@ -31,6 +31,8 @@ type icase struct {
 	// BadWrites: the outbound messages are of a type the head of the pipeline refuses (the write passes
 	// the idle handler and then fails with an exception, which the application consumes)
 	BadWrites bool `json:"bad_writes,omitempty"`
+	// InactivePanic: a handler behind the idle handler panics in HandleInactive
+	InactivePanic bool `json:"inactive_panic,omitempty"`
 }
 
 func (c icase) name() string {
@@ -53,6 +55,9 @@ func (c icase) name() string {
 	}
 	if c.BadWrites {
 		s += "/writes-refused-below-the-handler"
+	}
+	if c.InactivePanic {
+		s += "/downstream-inactive-handler-panics"
 	}
 	return s
 }
@@ -107,9 +112,12 @@ func (p *pre) HandleRead(ctx netty.InboundContext, m netty.Message) {
 	}
 }
 func (p *pre) HandleInactive(ctx netty.InactiveContext, ex netty.Exception) {
+	// (recorded also when a handler further down panics: the event has passed the idle handler by then)
+	defer func() {
+		s := now()
+		p.o.inactive = &s
+	}()
 	ctx.HandleInactive(ex)
-	s := now()
-	p.o.inactive = &s
 }
 
 // preW is the tail-side recorder for outbound writes.
@@ -132,6 +140,13 @@ func (s *sink) HandleActive(ctx netty.ActiveContext) {
 		ctx.Close(errClose)
 	}
 	ctx.HandleActive()
+}
+
+func (s *sink) HandleInactive(ctx netty.InactiveContext, ex netty.Exception) {
+	if s.o.ic.InactivePanic {
+		panic(errors.New("inactive handler failure"))
+	}
+	ctx.HandleInactive(ex)
 }
 
 func (s *sink) HandleRead(ctx netty.InboundContext, m netty.Message) {
@@ -354,6 +369,9 @@ func cases(thorough bool) []icase {
 			if thorough {
 				out = append(out, icase{Kind: kind, Gaps: s, CloseAt: 3 * T / 2, Panic: true})
 			}
+			if len(s) <= 1 {
+				out = append(out, icase{Kind: kind, Gaps: s, CloseAt: T / 2, InactivePanic: true}, icase{Kind: kind, Gaps: s, CloseAt: 3 * T / 2, InactivePanic: true})
+			}
 			if kind == "write" && len(s) >= 1 {
 				out = append(out, icase{Kind: kind, Gaps: s, CloseAt: -1, BadWrites: true})
 			}
@@ -365,7 +383,7 @@ func cases(thorough bool) []icase {
 func main() {
 	explore.Main(explore.Spec{
 		Property: "C20",
-		Rule:     "read-idle and write-idle handlers (idle time T = 1s) on virtual time: a peer goroutine issues 0-2 (thorough 3) messages separated by gaps from {0, T/16 (burst), T/2, T, 3T/2}; an observer keeps an open channel under watch until 4.5T; Close at {never, T/2, T, 3T/2, 5T/2} or from inside a downstream HandleActive; event handlers that panic, answer with a heartbeat write, or close the channel; outbound messages that pass the write-idle handler and are then refused by the head (exception consumed); timer callbacks are controlled goroutines; all interleavings up to 2 (thorough 3) deviations (preemptions + early clock ticks), horizon 5T. Oracle: an idle event delivered by a callback that started at step s and time t needs t - t_m >= T for every message whose passage through the idle handler had completed before s, and t - t_active >= T; on tick-free executions silence of k*T produces >= k events; after inactive has passed the handler at most the one callback already in flight delivers an event, no callback starts afterwards, and no timer stays armed; one exception per panicking event and no goroutine dies. distinct = distinct timelines",
+		Rule:     "read-idle and write-idle handlers (idle time T = 1s) on virtual time: a peer goroutine issues 0-2 (thorough 3) messages separated by gaps from {0, T/16 (burst), T/2, T, 3T/2}; an observer keeps an open channel under watch until 4.5T; Close at {never, T/2, T, 3T/2, 5T/2} or from inside a downstream HandleActive, also with a downstream inactive handler that panics; event handlers that panic, answer with a heartbeat write, or close the channel; outbound messages that pass the write-idle handler and are then refused by the head (exception consumed); timer callbacks are controlled goroutines; all interleavings up to 2 (thorough 3) deviations (preemptions + early clock ticks), horizon 5T. Oracle: an idle event delivered by a callback that started at step s and time t needs t - t_m >= T for every message whose passage through the idle handler had completed before s, and t - t_active >= T; on tick-free executions silence of k*T produces >= k events; after inactive has passed the handler at most the one callback already in flight delivers an event, no callback starts afterwards, and no timer stays armed; one exception per panicking event and no goroutine dies. distinct = distinct timelines",
 		Assume:   []string{"'passed the handler' is read as 'the handler's processing of the message completed' (messages still in flight when the callback started are disregarded - the weakest reading)", "virtual time; a callback may be delayed arbitrarily by scheduling"},
 		Build: func(tier string) []*explore.Scenario {
 			th := tier == "thorough"
